@@ -1,3 +1,4 @@
+import RossModel.Lemmas.SourceTie
 import RossModel.Lemmas.Usart
 import RossModel.Lemmas.Builder
 import RossModel.Lemmas.Can
@@ -47,5 +48,10 @@ theorem C04_wf_usable (f : Frame) (h : f.WF) (b : Builder) :
 /-- non-vacuity: the malformed bodies that crashed the pinned decoder are rejected with an error value -/
 example : fromUsart [0x05, 0x01] = .err .cobsError ∧ fromUsart [0x01, 0x00, 0x01] = .err .cobsError ∧
     fromUsart [] = .err .cobsError := by decide
+
+/-! ### tie to the source text (constants regenerated from /repo by `bin/extract` on every run) -/
+/-- the size check and header unpacking of `from_usart_frame`, and the field extraction of `from_bxcan_frame`, use the
+constants the model uses -/
+theorem C04_src_decoders : (SrcTie.fromUsartOk && SrcTie.fromCanOk) = true := by decide
 
 end Ross.Props
